@@ -59,7 +59,7 @@ USE_OPS = ("forward_exact", "logd", "gradient", "MAP", "ML", "sample", "sample_e
 
 def _use(r):
     """'use' history applied to the constructed problem before all monitors are evaluated a second time"""
-    ops = [[op, r.choice([1, 2])] for op in USE_OPS if r.random() < 0.6]
+    ops = [[op, r.choice([1, 2])] for op in USE_OPS if r.random() < (0.3 if op.startswith("sample") else 0.6)]
     r.shuffle(ops)
     return ops
 
@@ -984,6 +984,19 @@ def _run_pde(case, ctx, cuqi, rs):
         if e > tol:
             ctx.violation("exactdata_mismatch", cfg, detail=f"exactData differs from reference model(exactSolution): rel err {e:.3g}")
     _check_noise_and_consistency(ctx, P, rec)
+    if case.get("use"):
+        allow = {"forward_exact", "logd", "gradient"} | (set(USE_OPS) if (prob == "abel" or pdim <= 8) else set())
+        exact_before = np.array(xs_lib, copy=True)
+        _use_history(ctx, tp, cfg, case["use"], pts, allow, is_fun_exact=True)
+        P.cfg = {**cfg, "stage": "after_use"}
+        _check_noise_and_consistency(ctx, P, rec)
+        if F_eff is not None:
+            _compare_forward(ctx, P.cfg, tp.model.forward, [(None, F_par)], pts[:1], tol=tol)
+        if ok_fun is not None:
+            ctx.count("exactdata_checked")
+            e = _relerr(tp.exactData, F_fun(exact_before))
+            if e > tol:
+                ctx.violation("exactdata_mismatch", P.cfg, detail=f"after use: exactData differs from reference model(exactSolution): rel err {e:.3g}")
     if F_eff is not None and ok_fun is not None:
         ctx.nontrivial(f"{cfg['problem']}|{case['field']}|{mp}|{obs}")
 
@@ -1013,29 +1026,37 @@ def _run_wang(case, ctx, cuqi, rs):
         ctx.count("jacobian_checked")
         if kind_ != "value" or _relerr(g, R.wang_jacobian(x).T @ d) > 1e-10:
             ctx.violation("jacobian_mismatch", cfg, detail=f"model.gradient(d, x) = {g!r}, J^T d = {R.wang_jacobian(x).T @ d}")
-    ctx.count("exactdata_checked")
-    if _scalar(tp.data) != float(data_ref) or tp.exactSolution is not None or tp.exactData is not None:
-        ctx.violation("data_mismatch", cfg, detail=f"data {tp.data!r} (asked {data_ref}), exactSolution {tp.exactSolution!r}, exactData {tp.exactData!r}")
-    ctx.count("infostring_checked")
-    nums = re.findall(r"[-+]?\d*\.?\d+(?:[eE][-+]?\d+)?", str(tp.infoString).split(":")[-1])
-    if "gaussian" not in str(tp.infoString).lower() or not nums or abs(float(nums[-1]) - std) > 1e-12:
-        ctx.violation("infostring_mismatch", cfg, detail=f"infoString {tp.infoString!r} vs std {std}")
-    ctx.count("components_identity_checked")
-    m, dte, info = tp.get_components()
-    if m is not tp.model or dte is not tp.data or tp.posterior.likelihood is not tp.likelihood or tp.posterior.prior is not tp.prior \
-            or tp.likelihood.model is not tp.model or tp.model.domain_dim != 2 or tp.model.range_dim != 1 or tp.posterior.dim != 2:
-        ctx.violation("components_identity", cfg, detail="get_components / posterior / likelihood do not refer to the same objects")
+    def monitors(cfg):
+        ctx.count("exactdata_checked")
+        if _scalar(tp.data) != float(data_ref) or tp.exactSolution is not None or tp.exactData is not None:
+            ctx.violation("data_mismatch", cfg, detail=f"data {tp.data!r} (asked {data_ref}), exactSolution {tp.exactSolution!r}, exactData {tp.exactData!r}")
+        ctx.count("infostring_checked")
+        nums = re.findall(r"[-+]?\d*\.?\d+(?:[eE][-+]?\d+)?", str(tp.infoString).split(":")[-1])
+        if "gaussian" not in str(tp.infoString).lower() or not nums or abs(float(nums[-1]) - std) > 1e-12:
+            ctx.violation("infostring_mismatch", cfg, detail=f"infoString {tp.infoString!r} vs std {std}")
+        ctx.count("components_identity_checked")
+        m, dte, info = tp.get_components()
+        if m is not tp.model or dte is not tp.data or tp.posterior.likelihood is not tp.likelihood or tp.posterior.prior is not tp.prior \
+                or tp.likelihood.model is not tp.model or tp.model.domain_dim != 2 or tp.model.range_dim != 1 or tp.posterior.dim != 2:
+            ctx.violation("components_identity", cfg, detail="get_components / posterior / likelihood do not refer to the same objects")
+        if F_eff is None:
+            return
+        for x in pts:
+            ll_ref = R.gauss_logpdf_diag(np.array([float(data_ref)]), np.array([R.wang_forward(x)]), float(std))
+            lp_ref = logprior_ref(x)
+            ctx.count("likelihood_logd_checked"); ctx.count("prior_logd_checked"); ctx.count("posterior_logd_checked")
+            got = (_scalar(tp.likelihood.logd(x)), _scalar(tp.prior.logd(x)), _scalar(tp.posterior.logd(x)))
+            want = (ll_ref, lp_ref, ll_ref + lp_ref)
+            for nm, g, w in zip(("likelihood", "prior", "posterior"), got, want):
+                if not abs(g - w) <= 1e-9 * (abs(w) + abs(ll_ref) + 1):
+                    ctx.violation(f"{nm}_logd_mismatch", cfg, detail=f"{nm}.logd({x.tolist()}) = {g:.12g}, reference {w:.12g}")
+    monitors(cfg)
+    if F_eff is not None and case.get("use"):
+        _use_history(ctx, tp, cfg, case["use"], pts, set(USE_OPS))
+        monitors({**cfg, "stage": "after_use"})
+        _compare_forward(ctx, {**cfg, "stage": "after_use"}, tp.model.forward, [(None, lambda x: np.array([R.wang_forward(_arr(x))]))], pts[:1])
     if F_eff is None:
         return
-    for x in pts:
-        ll_ref = R.gauss_logpdf_diag(np.array([float(data_ref)]), np.array([R.wang_forward(x)]), float(std))
-        lp_ref = logprior_ref(x)
-        ctx.count("likelihood_logd_checked"); ctx.count("prior_logd_checked"); ctx.count("posterior_logd_checked")
-        got = (_scalar(tp.likelihood.logd(x)), _scalar(tp.prior.logd(x)), _scalar(tp.posterior.logd(x)))
-        want = (ll_ref, lp_ref, ll_ref + lp_ref)
-        for nm, g, w in zip(("likelihood", "prior", "posterior"), got, want):
-            if not abs(g - w) <= 1e-9 * (abs(w) + abs(ll_ref) + 1):
-                ctx.violation(f"{nm}_logd_mismatch", cfg, detail=f"{nm}.logd({x.tolist()}) = {g:.12g}, reference {w:.12g}")
     ctx.nontrivial(f"WangCubic|{case['prior']}|{case['noise_std'] is None}|{case['data'] is None}")
 
 # ----------------------------------------------------------------------------- pooled noise statistics
